@@ -43,7 +43,7 @@ Z = {"type": "record", "name": "Zero", "fields": [{"name": "n", "type": "null"}]
 OPS_S = ["w_small", "w_large", "w_bad_first", "w_bad_last", "flush", "copy_null", "copy_deflate", "copyiter_null",
          "reopen_none", "reopen_same", "reopen_diff", "reopen_codec", "reopen_meta", "reopen_marker", "reopen_midpos", "side_file", "reopen_samecanon", "w_omit_b", "dump", "flush_fault", "recreate", "w_none_d", "w_bad_encode_only"]
 OPS_Z = ["w_zero", "w_zero_omitted", "flush", "copy_null", "reopen_none", "reopen_codec", "side_file", "dump", "flush_fault"]
-DEPTH = {"quick": 5, "thorough": 6}
+DEPTH = {"quick": 5, "thorough": 5}
 PREFIX = 2
 
 
